@@ -61,7 +61,9 @@ def gen_tunnel_case(rng, L, R, P, A):
               "rnet": dotted(rng.randrange(2 ** 16) << 16), "rmask": "255.255.0.0"}
     local1 = dict({"type": L, "nic": "lan_nic"}, **custom)
     remote1 = {"type": R, "nic": "lan_nic", "modeconfig_ip": dotted(rng.randrange(2 ** 32))}
-    peer1 = {"type": P, "nic": "internet_nic"}
+    prole = rng.choice(["internet_nic", "internet_nic", "lan_nic"])     # the nic role the two end points peer over
+    pnic = {"internet_nic": "b1", "lan_nic": "b2"}[prole]
+    peer1 = {"type": P, "nic": prole}
     if A == "None":
         auth = None
     elif A == "psk":
@@ -73,7 +75,7 @@ def gen_tunnel_case(rng, L, R, P, A):
     lan2 = n2.interfaces["b2"].netconfig
     vals = [to_int(lan1.net_ip), to_int(lan1.netmask), to_int(lan2.net_ip), to_int(lan2.netmask),
             to_int(custom["lnet"]), to_int(custom["lmask"]), to_int(custom["rnet"]), to_int(custom["rmask"]),
-            to_int(n1.interfaces["b1"].ip), to_int(n2.interfaces["b1"].ip), to_int(remote1["modeconfig_ip"])]
+            to_int(n1.interfaces[pnic].ip), to_int(n2.interfaces[pnic].ip), to_int(remote1["modeconfig_ip"])]
     return net, n1, n2, local1, remote1, peer1, auth, vals
 
 
